@@ -23,6 +23,7 @@ extern "C" {
 #include <list>
 #include <memory>
 #include <unordered_set>
+#include <sys/wait.h>
 
 namespace exd {
 
@@ -354,6 +355,7 @@ public:
   std::unordered_set<vf::Hash128, vf::Hash128H> seen;
   std::set<std::string>                         poison;     // exact cases that killed an earlier run of this shard
   std::set<std::pair<vf::Hash128, std::string>> poison_ops; // generalised: (state before the last op, last op)
+  std::set<int>                                 risky_ops;  // operations that killed an earlier run: probed in a child first
   int                                           maxdepth;
   double                                        t_end;
   bool                                          cut_by_depth = false, deadline_hit = false;
@@ -414,7 +416,37 @@ public:
       vf::Hash128 h = vf::hash128(c.name + "|" + F.key(in));
       F.finish(in, ctx);
       poison_ops.insert({ h, F.op_json(ops.back()) });
+      risky_ops.insert(ops.back().c);
     }
+  }
+
+  // Execute hist+op in a forked child only to learn whether the process survives it (sanitizer abort,
+  // signal, watchdog).  Used for operations that already killed this shard once, so that one defect
+  // reachable from many states cannot exhaust vf's restart budget.  Returns true if the child survived.
+  bool probe_survives(const Config &cfg, const std::vector<Op> &hist, const Op &op)
+  {
+    fflush(nullptr);
+    pid_t pid = fork();
+    if (pid < 0) return true;
+    if (pid == 0) {
+      vf::crashctx().path[0] = 0; // the parent reports; no crash file from the probe
+      vf::watchdog(60);
+      Ctx ctx;
+      ctx.checking = false;
+      Instance *in = F.fresh(cfg, ctx);
+      for (auto &o : hist) F.apply(in, o, ctx);
+      ctx.checking = true;
+      ctx.rep      = &quiet;
+      ctx.opname   = F.opname(op.c);
+      F.apply(in, op, ctx);
+      if (!ctx.failed && !F.terminal(op)) (void)F.key(in);
+      F.finish(in, ctx);
+      _exit(0);
+    }
+    int status = 0;
+    while (waitpid(pid, &status, 0) < 0) {
+    }
+    return WIFEXITED(status) && WEXITSTATUS(status) == 0;
   }
   bool parse_replay(const JV &r, Config &c, std::vector<Op> &ops) const
   {
@@ -482,6 +514,18 @@ public:
       std::string js = replay_json(cfg, hist, &op);
       if (poison.count(js) || (!poison_ops.empty() && poison_ops.count({ sthash[s], F.op_json(op) }))) {
         if (counting) rep.count("poisoned_cases_skipped");
+        continue;
+      }
+      if (risky_ops.count(op.c) && !probe_survives(cfg, hist, op)) {
+        rep.violation(F.name() + ":" + F.opname(op.c) + ":sanitizer-abort",
+                      "the process does not survive this case (sanitizer report, fatal signal or watchdog; see the shard log); "
+                      "the same operation already killed an earlier run of this shard, so it is probed in a child process",
+                      js);
+        if (counting) {
+          rep.count("probe_aborts");
+          rep.transitions++;
+          rep.executions++;
+        }
         continue;
       }
       Ctx ctx;
